@@ -233,7 +233,10 @@ func (tds *Conn) ReadFrom() {
 		tdsChan.WritePacket(packet)
 
 		// err from packet.ReadFrom
-		if errors.Is(err, io.EOF) {
+		// The server closing the connection is only expected after it
+		// confirmed the termination. In any other case continue to read,
+		// the closed connection will be reported as an error.
+		if errors.Is(err, io.EOF) && packet.Header.MsgType == TDS_BUF_CLOSE {
 			return
 		}
 	}
